@@ -7,6 +7,7 @@
 import Mathlib.Algebra.Order.Floor.Ring
 import TradingVerif.Lemmas.Basic
 import TradingVerif.Lemmas.IntInst
+import TradingVerif.Lemmas.Reach
 set_option linter.unusedSectionVars false
 set_option linter.unusedVariables false
 namespace TV
@@ -240,6 +241,60 @@ theorem sub_lot_skipped (w : World K) (b : Broker K) (nlv : K) (r : Rebal K) (al
   unfold tradeFor
   have : truncK q = 0 := (truncK_eq_zero_iff q).mpr hq
   simp [hf, HasTrunc.trunc, this]
+
+/-! ### the whole trade list of a rebalance -/
+
+theorem or_iff_lt_imp {a m : K} {P : Prop} : (m ≤ a ∨ P) ↔ (a < m → P) := by
+  constructor
+  · intro h hlt; exact h.resolve_left (not_le.mpr hlt)
+  · intro h
+    by_cases hlt : a < m
+    · exact Or.inr (h hlt)
+    · exact Or.inl (not_lt.mp hlt)
+
+
+/-- **The trades of a whole rebalance, exactly**: `make_trades` returns, in the order of the imbalance, one
+    trade per imbalanced contract that passes the filter — for the imbalance itself or its whole-lot part —
+    and nothing else. (`imbalanceOf` lists exactly the contracts with a non-zero imbalance.) -/
+theorem makeTrades_spec (w : World K) (b : Broker K) (nlv : K) (r : Rebal K) (trades : List (Trade K))
+    (h : makeTrades w b nlv r = .ok trades) :
+    trades.map (fun t => (t.key, t.qty)) =
+      ((imbalanceOf w b
+          (if r.byWeight then toNrContracts w b nlv (cleanAlloc w r.target)
+           else (cleanAlloc w r.target).map fun kv => (kv.1, some kv.2)) r.absolute).filter
+        fun kv => emitted w b nlv r (cleanAlloc w r.target) kv).map (fun kv => (kv.1, askedQty r kv)) := by
+  unfold makeTrades at h
+  by_cases hbw : r.byWeight = true
+  · simp only [hbw, if_true] at h ⊢
+    split_ifs at h
+    exact tradesFor_any w b nlv r _ _ trades h
+  · simp only [hbw, Bool.false_eq_true, if_false] at h ⊢
+    split_ifs at h
+    exact tradesFor_any w b nlv r _ _ trades h
+
+/-- the filter, in the property's words: a trade is emitted iff the asked quantity is non-zero (whole lots:
+    the imbalance is at least one lot) and it is not the case that the imbalance weight is strictly below the
+    threshold while the contract is part of the target — a held contract absent from the target (a
+    liquidation) is never filtered -/
+theorem emitted_iff (w : World K) (b : Broker K) (nlv : K) (r : Rebal K) (alloc : List (Key × K))
+    (kv : Key × Option K) :
+    emitted w b nlv r alloc kv = true ↔
+      (r.fractional = false → askedQty r kv ≠ 0) ∧
+      ¬ ((∃ p, (b.ex.books kv.1).acq (sgn (kv.2.getD 0)) = some p ∧
+            |imbWeight w b nlv kv.1 (kv.2.getD 0) p| < r.margin) ∧ kv.1 ∈ alloc.map (·.1)) := by
+  unfold emitted skipped imbWeight
+  cases hacq : (b.ex.books kv.1).acq (sgn (kv.2.getD 0)) with
+  | none => cases hf : r.fractional <;> simp [hf]
+  | some p =>
+      simp only [Option.some.injEq, exists_eq_left', ← absv_eq_abs]
+      cases hf : r.fractional <;> simp [hf] <;>
+        first | exact or_iff_lt_imp | exact fun _ => or_iff_lt_imp
+
+theorem liquidation_never_filtered (w : World K) (b : Broker K) (nlv : K) (r : Rebal K) (alloc : List (Key × K))
+    (kv : Key × Option K) (hf : r.fractional = true) (hout : kv.1 ∉ alloc.map (·.1)) :
+    emitted w b nlv r alloc kv = true := by
+  rw [emitted_iff]
+  exact ⟨(fun h => by rw [hf] at h; cases h), (fun h => hout h.2)⟩
 
 /-! Mutant witnesses (integers; `int()` is the identity there). -/
 
